@@ -93,6 +93,10 @@ CLAIMED["C35"] = dict(engine="cluster", design="§6 C35",
    technique=TECH + "scheduler-interleaved notification and lookup steps on the real client location cache, with each reader's lookup split into obtain/consume steps; reference-set oracle and handed-out-list integrity check",
    text="Add/remove notifications for a few volumes and servers are applied to the real wdclient vidMap in plan order while reader actors look volumes up; a lookup returns exactly the currently added locations (each once, same-data-center first) or not-found, and a list a reader obtained is still intact when it consumes it after later updates (no duplicated, lost or torn entries). Interleaving is at call granularity; the race-detector clause and the reconnecting stream against a real master are not part of this check.",
    note="Trusted: notifications are applied through thin wrappers around addLocation/deleteLocation exactly as tryConnectToMaster does; a reader holds the slice the API returned.")
+CLAIMED["C10"] = dict(engine="cluster", design="§6 C10",
+   technique=TECH + "seeded RNG draws of the real volume growth and heartbeat-driven capacity changes between growth requests; AllocateVolume RPCs recorded at modelled volume servers on the simulated network; placement-rule oracle plus brute-force existence check",
+   text="Partial claim: the rule check over arbitrary topologies is a function of (topology, RNG draws); the simulator owns the RNG and the interleaving with heartbeats that change free slots. For generated topologies and every replication string 000..222, with and without preferences, the set of servers the master really sends AllocateVolume to for one new volume id is 1+x+y+z distinct servers with a free slot of the requested disk type, z+1 in one rack, y in other racks of that data center, x in other data centers, preferences honoured; when no valid set exists nothing is allocated. That growth succeeds whenever a valid set exists is not claimed.",
+   note=TOPONOTE + " Allocation RPCs always succeed here (their failure is outside the statement).")
 
 PLANNED = {}
 
